@@ -24,6 +24,19 @@ not copy); it reaches the next by-value boundary (`f($o->get())`, `new K($o->get
 route. The theorems below cover these routes because `RV` ranges over them;
 `C06_call_result_copy_needed` shows that the copy made at such a boundary is necessary.
 
+**Scalar payloads.**  Elements are integers, strings, null or object handles, and a
+right-hand side may be `RV.upd place f`: the new scalar a *compound assignment*
+(`place .= c`, `+=`, `*=`, `??=`) computes from the one the place holds, so
+`$b[k] .= 'x'` is the statement `setIdx b k (.upd (.idx b k) (.concat x))` and every theorem
+below ranges over such statements.  A scalar has no identity in the model — there is no
+`*StringValue` object that two cells could share — so the model cannot express an
+implementation that appends to the element's value object in place; it states the design
+(copies share the cells and value objects of scalar elements *because* neither is ever
+mutated; `C06_compound_rhs_pure`, `C06_compound_is_store`) and the correspondence run, the
+before/after oracle over every element kind × mutation form × copy route and the regenerated
+list of Go sites that assign a scalar value object's field (`C06_scalar_objects_immutable`)
+tie the code to it.
+
 The statement holds at full strength since the copy made at every copy point
 (`CloneArrayValue` / `CloneObjectValue`) is recursive (fix C06-6): no array object is
 reachable from two places, so the in-place mutation the interpreter performs for a nested
@@ -286,7 +299,102 @@ theorem C06_call_result_is_read (s : St) (x p : Nat) (b pl : Place) (k : Option 
     ∀ t : Spec.Val.St, Spec.Val.evalRV t (.call pl) = Spec.Val.evalRV t (.rd pl) :=
   ⟨rfl, rfl, rfl, fun _ => rfl⟩
 
+/-! ### Compound assignments on elements: a scalar payload is never changed in place -/
+
+/-- **The right-hand side of a compound assignment only reads.**  Evaluating `place op= c`'s
+right-hand side (`RV.upd place f`) on any tree leaves the state exactly as it was and yields
+the scalar `f` computes from the scalar the place holds — nothing is written before the
+store.  (The implementation: `assignIndexConcat` reads the element, `concatPHPValues` builds a
+NEW value, the slot store replaces the cell.  An in-place `ls.Value += rs.Value` on the
+element's `*StringValue` — shared by every copy of the array — has no counterpart here.) -/
+theorem C06_compound_rhs_pure (cfg : Cfg) (s s' : St) (p : Place) (u : Upd) (v : Val)
+    (h : evalRV cfg s (.upd p u) = some (v, s')) :
+    s' = s ∧ ∃ sv r, readPlace s p = some (.sc sv) ∧ u.apply sv = some r ∧ v = .sc r := by
+  simp only [evalRV] at h
+  cases hr : readPlace s p with
+  | none => simp [hr] at h
+  | some w =>
+    cases w with
+    | arr a kids => simp [hr] at h
+    | sc sv =>
+      cases hu : u.apply sv with
+      | none => simp [hr, hu] at h
+      | some r =>
+        simp [hr, hu] at h
+        exact ⟨h.2.symm, sv, r, rfl, hu, h.1.symm⟩
+
+/-- **… so a compound assignment IS the plain store of the computed scalar**, on every tree
+and in every state: `$b[k] .= 'x'` with `$b[k] = 'ab'` is `$b[k] = 'abx'`; `$b[k] += 3`
+with `$b[k] = 4` is `$b[k] = 7`.  Everything proved about stores — the cell is replaced, the
+array object of the written name only is touched — holds for compound assignments. -/
+theorem C06_compound_is_store (cfg : Cfg) (s : St) (b p : Place) (k : Option IKey) (u : Upd) (sv : Scalar)
+    (hr : readPlace s p = some (.sc sv)) :
+    (∀ cs, u.apply sv = some (.str cs) →
+      stepOpt cfg s (.setIdx b k (.upd p u)) = stepOpt cfg s (.setIdx b k (.str cs))) ∧
+    (∀ n, u.apply sv = some (.int n) →
+      stepOpt cfg s (.setIdx b k (.upd p u)) = stepOpt cfg s (.setIdx b k (.int n))) := by
+  constructor
+  · intro cs hu; simp [stepOpt, evalRV, hr, hu]
+  · intro n hu; simp [stepOpt, evalRV, hr, hu]
+
+/-- **A compound assignment through one name is invisible through every other name** — the
+instance of `C06_write_invisible` for `place[k] op= c` at any depth, after any program. -/
+theorem C06_compound_assign_invisible (nv : Nat) (ops : List Op) (b : Place) (k : IKey) (u : Upd) :
+    match b.root with
+    | .var x =>
+      (abs (run .fixed nv (ops ++ [.setIdx b (some k) (.upd (.idx b k) u)]))).objs = (abs (run .fixed nv ops)).objs ∧
+      ∀ y, (run .fixed nv ops).names[y]? ≠ (run .fixed nv ops).names[x]? →
+        (abs (run .fixed nv (ops ++ [.setIdx b (some k) (.upd (.idx b k) u)]))).varVal? y = (abs (run .fixed nv ops)).varVal? y
+    | .prop x p =>
+      (∀ y, (abs (run .fixed nv (ops ++ [.setIdx b (some k) (.upd (.idx b k) u)]))).varVal? y = (abs (run .fixed nv ops)).varVal? y) ∧
+      ∀ h p', ((run .fixed nv ops).varObj? x ≠ some h ∨ p' ≠ p) →
+        (abs (run .fixed nv (ops ++ [.setIdx b (some k) (.upd (.idx b k) u)]))).propVal? h p' = (abs (run .fixed nv ops)).propVal? h p'
+    | .idx _ _ => True :=
+  C06_write_invisible nv ops (.setIdx b (some k) (.upd (.idx b k) u)) b rfl
+
+mutual
+/-- the scalars of a tree, left to right, strings included -/
+def sleaves : Tree → List Scalar
+  | .sc s => [s]
+  | .arr kids => sleavesL kids
+def sleavesL : List (Key × Tree) → List Scalar
+  | [] => []
+  | (_, t) :: r => sleaves t ++ sleavesL r
+end
+
+def sobs (s : Spec.Val.St) (x : Nat) : List Scalar :=
+  match s.varVal? x with
+  | some t => sleaves t
+  | none => []
+
+/-- `$a = ['ab', 'cd', 7]; $b = $a; $b[0] .= 'x'; $b[2] .= 'y'; $a[1] .= 'z';` -/
+def concatWitness : List Op :=
+  [.setVar 0 (.lit (.arr [(.pos, .str [97, 98]), (.pos, .str [99, 100]), (.pos, .int 7)])), .setVar 1 (.rd (.var 0)),
+   .setIdx (.var 1) (some (.int 0)) (.upd (.idx (.var 1) (.int 0)) (.concat [120])),
+   .setIdx (.var 1) (some (.int 2)) (.upd (.idx (.var 1) (.int 2)) (.concat [121])),
+   .setIdx (.var 0) (some (.int 1)) (.upd (.idx (.var 0) (.int 1)) (.concat [122]))]
+
+/-- outcomes of the `.=` witness, as the harness replays them on the real code: on the model
+(of this tree, and of the trees before the fixes that do not concern flat copies) and under
+value semantics `$a` reads `ab, cdz, 7` and `$b` reads `abx, cd, 7y` — an implementation
+that appends to the shared string object gives `abx, cdz, 7` for both -/
+theorem C06_concat_witness_outcomes :
+    sobs (abs (run .fixed 2 concatWitness)) 0 = [.str [97, 98], .str [99, 100, 122], .int 7] ∧
+    sobs (abs (run .fixed 2 concatWitness)) 1 = [.str [97, 98, 120], .str [99, 100], .str [55, 121]] ∧
+    sobs (Spec.Val.run 2 concatWitness) 0 = [.str [97, 98], .str [99, 100, 122], .int 7] ∧
+    sobs (Spec.Val.run 2 concatWitness) 1 = [.str [97, 98, 120], .str [99, 100], .str [55, 121]] ∧
+    sobs (abs (run .shallow 2 concatWitness)) 0 = [.str [97, 98], .str [99, 100, 122], .int 7] := by
+  decide
+
 /-! ### Non-vacuity -/
+/- the hypotheses of `C06_compound_rhs_pure` / `C06_compound_is_store` are satisfiable, for each kind of update -/
+example : Upd.apply (.concat [120]) (.str [97]) = some (.str [97, 120]) ∧ Upd.apply (.concat [120]) (.int (-12)) = some (.str [45, 49, 50, 120]) ∧
+    Upd.apply (.add 3) (.int 4) = some (.int 7) ∧ Upd.apply (.mul 3) (.int 4) = some (.int 12) ∧
+    Upd.apply (.coalesce 5) .null = some (.int 5) ∧ Upd.apply (.coalesce 5) (.int 1) = some (.int 1) ∧ Upd.apply (.add 3) .null = some (.int 3) ∧
+    Upd.apply (.add 3) (.str [97]) = none := by decide
+example : evalRV .fixed (run .fixed 2 (concatWitness.take 2)) (.upd (.idx (.var 1) (.int 0)) (.concat [120])) =
+    some (.sc (.str [97, 98, 120]), run .fixed 2 (concatWitness.take 2)) := by rfl
+example : readPlace (run .fixed 2 (concatWitness.take 2)) (.idx (.var 1) (.int 0)) = some (.sc (.str [97, 98])) := by rfl
 
 /- a program with nested values, every route and every kind of write, at the root of a name
    and inside inner arrays, with keys created on the way:
